@@ -13,7 +13,14 @@ use std::pin::Pin;
 use std::task::{Context, Poll};
 
 pub(crate) struct Chan<T> {
-    q: Vec<T>,
+    /// Queued values.  `ManuallyDrop`: the queue is always emptied by the receiver's
+    /// destructor (and stays empty afterwards because sends then fail), so the
+    /// channel's own drop glue never has a `T` to drop; spelling that out keeps the
+    /// (possibly recursive) drop glue of `T` out of every sender's destructor.
+    q: std::mem::ManuallyDrop<Vec<Option<T>>>,
+    /// Index of the oldest queued value: values are taken out in place and the vector is
+    /// never shifted (shifting is a symbolic-size memmove for CBMC).
+    head: usize,
     cap: usize,
     reserved: usize,
     senders: usize,
@@ -25,19 +32,31 @@ impl<T> Chan<T> {
     fn is_closed(&self) -> bool {
         !self.rx_alive || self.rx_closed
     }
+    fn len(&self) -> usize {
+        self.q.len() - self.head
+    }
     fn has_room(&self) -> bool {
-        self.q.len() + self.reserved < self.cap
+        self.len() + self.reserved < self.cap
+    }
+    fn push(&mut self, v: T) {
+        self.q.push(Some(v));
     }
     fn pop(&mut self) -> Option<T> {
-        if self.q.is_empty() { None } else { Some(self.q.remove(0)) }
+        if self.head >= self.q.len() {
+            None
+        } else {
+            let v = self.q[self.head].take();
+            self.head += 1;
+            v
+        }
     }
     fn finished(&self) -> bool {
-        self.q.is_empty() && (self.senders == 0 || (self.rx_closed && self.reserved == 0))
+        self.len() == 0 && (self.senders == 0 || (self.rx_closed && self.reserved == 0))
     }
 }
 
 fn new_chan<T>(cap: usize) -> Shared<Chan<T>> {
-    Shared::new(Chan { q: Vec::new(), cap, reserved: 0, senders: 1, rx_alive: true, rx_closed: false })
+    Shared::new(Chan { q: std::mem::ManuallyDrop::new(Vec::new()), head: 0, cap, reserved: 0, senders: 1, rx_alive: true, rx_closed: false })
 }
 
 // ---------------------------------------------------------------- bounded
@@ -100,7 +119,7 @@ impl<'a, T> Future for SendFut<'a, T> {
             if c.is_closed() {
                 Poll::Ready(Err(error::SendError(val.take().expect("polled after completion"))))
             } else if c.has_room() {
-                c.q.push(val.take().expect("polled after completion"));
+                c.push(val.take().expect("polled after completion"));
                 Poll::Ready(Ok(()))
             } else {
                 Poll::Pending
@@ -145,7 +164,7 @@ impl<T> Sender<T> {
             if c.is_closed() {
                 Err(error::TrySendError::Closed(value))
             } else if c.has_room() {
-                c.q.push(value);
+                c.push(value);
                 Ok(())
             } else {
                 Err(error::TrySendError::Full(value))
@@ -185,7 +204,7 @@ impl<T> Sender<T> {
     }
 
     pub fn capacity(&self) -> usize {
-        self.ch.with(|c| c.cap - c.q.len() - c.reserved)
+        self.ch.with(|c| c.cap - c.len() - c.reserved)
     }
 
     pub fn max_capacity(&self) -> usize {
@@ -202,7 +221,7 @@ impl<T> Sender<T> {
 
     /// Model-only: number of queued values (excluding permits).
     pub fn model_len(&self) -> usize {
-        self.ch.with(|c| c.q.len())
+        self.ch.with(|c| c.len())
     }
 }
 
@@ -216,7 +235,7 @@ impl<'a, T> Permit<'a, T> {
         self.live = false;
         self.tx.ch.with(|c| {
             c.reserved -= 1;
-            c.q.push(value);
+            c.push(value);
         });
     }
 }
@@ -244,7 +263,7 @@ impl<T> OwnedPermit<T> {
         let tx = self.tx.take().expect("permit already used");
         tx.ch.with(|c| {
             c.reserved -= 1;
-            c.q.push(value);
+            c.push(value);
         });
         tx
     }
@@ -297,7 +316,8 @@ fn try_recv_int<T>(ch: &Shared<Chan<T>>) -> Result<T, error::TryRecvError> {
 fn drop_rx<T>(ch: &Shared<Chan<T>>) {
     let q = ch.with(|c| {
         c.rx_alive = false;
-        std::mem::take(&mut c.q)
+        c.head = 0;
+        std::mem::take(&mut *c.q)
     });
     drop(q);
 }
@@ -354,11 +374,11 @@ macro_rules! receiver_common {
         }
 
         pub fn is_empty(&self) -> bool {
-            self.ch.with(|c| c.q.is_empty())
+            self.ch.with(|c| c.len() == 0)
         }
 
         pub fn len(&self) -> usize {
-            self.ch.with(|c| c.q.len())
+            self.ch.with(|c| c.len())
         }
 
         pub fn blocking_recv(&mut self) -> Option<T> {
@@ -371,7 +391,7 @@ impl<T> Receiver<T> {
     receiver_common!();
 
     pub fn capacity(&self) -> usize {
-        self.ch.with(|c| c.cap - c.q.len() - c.reserved)
+        self.ch.with(|c| c.cap - c.len() - c.reserved)
     }
     pub fn max_capacity(&self) -> usize {
         self.ch.with(|c| c.cap)
@@ -434,7 +454,7 @@ impl<T> UnboundedSender<T> {
             if c.is_closed() {
                 Err(error::SendError(value))
             } else {
-                c.q.push(value);
+                c.push(value);
                 Ok(())
             }
         })
@@ -454,7 +474,7 @@ impl<T> UnboundedSender<T> {
 
     /// Model-only: number of queued values.
     pub fn model_len(&self) -> usize {
-        self.ch.with(|c| c.q.len())
+        self.ch.with(|c| c.len())
     }
 }
 
